@@ -540,6 +540,9 @@ func (x *Exec) atLoopHead(st *State, la *loopAnalysis, head, from *ssa.BasicBloc
 	for _, c := range spec.Invariants {
 		st.Assume(x.evalBool(env, c.Expr))
 	}
+	for _, c := range spec.Assumes {
+		st.Assume(x.evalBool(env, c.Expr))
+	}
 	if f.Fn == x.Fn && f.Caller == nil && x.FC != nil {
 		x.runGhosts(st, env, fmt.Sprintf("loop:%d", ord))
 	}
@@ -621,6 +624,13 @@ func (x *Exec) havocLoop(st *State, la *loopAnalysis, head *ssa.BasicBlock, spec
 	if f := st.Frame; f.Fn == x.Fn && x.FC != nil {
 		for _, g := range x.FC.Ghosts {
 			if g.At == "entry" {
+				continue
+			}
+			if i := strings.Index(g.LHS, "("); i > 0 {
+				key := "gmap:" + strings.TrimSpace(g.LHS[:i])
+				if h, ok := st.Heap[key]; ok {
+					st.Heap[key] = Fresh("H$"+key, h.Sort)
+				}
 				continue
 			}
 			if v, ok := st.Ghost[g.LHS]; ok {
@@ -881,6 +891,8 @@ func (x *Exec) modFromContract(st *State, m *modSet, fc *FuncContract) {
 		switch {
 		case e.Kind == "call" && e.Args[0].Kind == "ident" && e.Args[0].Name == "mem":
 			m.mems["byte"] = true
+		case e.Kind == "ident" && e.Name == "maps":
+			m.heap["map:"] = true
 		case e.Kind == "call" && e.Args[0].Kind == "ident" && e.Args[0].Name == "ghost":
 			if len(e.Args) > 1 {
 				m.ghosts[e.Args[1].String()] = true
